@@ -303,7 +303,7 @@ def make_vcard_data(name, displayname, email=None, phone=None, fax=None,
 
     escape = _escape_vcard
     data = ['BEGIN:VCARD', 'VERSION:3.0',
-            f'N:{name}',
+            'N:{}'.format(str(name).replace('\r', '').replace('\n', '\\n')),
             f'FN:{escape(displayname)}']
     if org:
         data.append(f'ORG:{escape(org)}')
